@@ -94,13 +94,17 @@ def _validate_overlay(run, g, src, p, out, classes) -> int:
     require(isinstance(out, str) and os.path.exists(out), "overlay:file_written", repr(out))
     require(os.path.basename(out) == "overlaid_critical_path_" + os.path.basename(run.files[run.rank]), "overlay:file_name", out)
     data = read_any(out)
-    crit_events = {int(x) for x in g.critical_path_events_set}
     nodes = g.node_list
+    # the critical path's events and edges, derived from the reported node sequence (not from the graph's own sets)
+    path = [int(n) for n in g.critical_path_nodes]
+    crit_events = {int(nodes[n].ev_idx) for n in path}
+    crit_edges = [g.edges[u, v]["object"] for u, v in zip(path, path[1:])]
+    crit_edge_set = set(crit_edges)
     all_edges = [e for _, _, e, _ in edge_objects(g)]
     if p["all_edges"] and not p["only_critical"]:
         drawn = [e for e in all_edges if p["show_zero"] or not (e.type.name == "KERNEL_LAUNCH_DELAY" and e.weight == 0)]
     else:
-        drawn = list(g.critical_path_edges_set)
+        drawn = list(crit_edges)
     events = data["traceEvents"]
     flows = [e for e in events if e.get("ph") in ("s", "f") and e.get("name") == "critical_path"]
     body = events[: len(events) - len(flows)]
@@ -140,7 +144,7 @@ def _validate_overlay(run, g, src, p, out, classes) -> int:
     want_pairs = Counter()
     for e in drawn:
         a, b = src_events[int(nodes[e.begin].ev_idx)], src_events[int(nodes[e.end].ev_idx)]
-        want_pairs[(a["pid"], a["tid"], b["pid"], b["tid"], e.type.value, int(e.weight), e in g.critical_path_edges_set)] += 1
+        want_pairs[(a["pid"], a["tid"], b["pid"], b["tid"], e.type.value, int(e.weight), e in crit_edge_set)] += 1
     got_pairs = Counter()
     for fid, pair in by_id.items():
         require(len(pair) == 2 and {x["ph"] for x in pair} == {"s", "f"}, "overlay:flow_pair_shape", lambda: str(pair))
@@ -292,7 +296,7 @@ def campaigns(tier: str) -> List[Campaign]:
         Campaign("counters", counters_case(), check_counters, quick=160, thorough=6000, quick_shards=4,
                  required_classes={"counter_file_written": 0.4, "has_noncomplete_entries": 0.3},
                  sample_view=lambda c: {"params": c["params"], "n_events": [len(r["events"]) for r in c["ranks"]]}),
-        Campaign("overlay", overlay_case(), check_overlay, quick=240, thorough=8000, quick_shards=8,
+        Campaign("overlay", overlay_case(), check_overlay, quick=640, thorough=9600, quick_shards=8,
                  required_classes={"all_events_kept": 0.3, "only_critical_events": 0.1, "all_edges_drawn": 0.15,
                                    "show_zero_weight_launch_edges": 0.2, "second_write_from_same_object": 0.3},
                  sample_view=lambda c: {**view(c), "overlay": c["overlay"]}),
